@@ -66,6 +66,12 @@ def gen(tier, rng, harness=None):
         from . import core3gen
         a = " ".join(core3gen.gen_func(rng))
         lines += ["core3.reparse " + a, "!core3.rt " + a]
+    # systematically (no random choice): integer constants of widths that are not a multiple of four, at the values the printer spells in
+    # hexadecimal with a top digit that only partly fits the type (`i13 u0x1000`, `i33 u0x1FFFFFFFF`, `i31 u0x40000000`)
+    for w in (5, 6, 7, 9, 10, 11, 13, 14, 15, 17, 23, 31, 33, 47, 63, 65, 127, 129):
+        for v in sorted({2**(w - 1) - 1, 2**(w - 1), 2**(w - 2), 2**w - 1, 2**(w - 1) + 2**(w - 5)} | ({4096, 65535} if w > 16 else set())):
+            a = "- 67:g:i%d=i%d" % (w, v)
+            lines += ["core2.reparse " + a, "!core2.rt " + a]
     from . import metagen
     lines += metagen.print_lines(rng, n)
     from . import wholegen
